@@ -658,7 +658,7 @@ class LLMRails:
         # we move that to the `$bot_message` variable. This is to enable a more
         # convenient interface. (only when dialog rails are disabled)
         if (
-            messages[-1]["role"] == "assistant"
+            messages[-1]["role"] in ["assistant", "bot"]
             and options
             and options.rails.dialog is False
         ):
